@@ -463,7 +463,13 @@ func vPreprocessing() (n int, fails []string) {
 //@   modifies it.index
 //@   ensures old(it.index) <= it.index
 //@   ensures result != nil ==> old(it.index) < it.index && result == it.tokens[it.index-1]
+// CSS Syntax 3 §4: comments produce no token and white space is insignificant where this is called (between a
+// declaration name and its colon, around a single value): the token returned is neither, and everything
+// skipped is one or the other, when comments are kept in the token list as when they are not
+//@   ensures[significant] result != nil ==> !typeIs(result, Whitespace) && !typeIs(result, Comment)
+//@   ensures[skips-only-white-space-and-comments] result != nil ==> forall(k, old(it.index), it.index - 1, typeIs(it.tokens[k], Whitespace) || typeIs(it.tokens[k], Comment))
 //@   loop 1 invariant old(it.index) <= it.index && it.index <= len(it.tokens)
+//@   loop 1 invariant forall(k, old(it.index), it.index, typeIs(it.tokens[k], Whitespace) || typeIs(it.tokens[k], Comment))
 //@   loop 1 decreases len(it.tokens) - it.index
 
 //@ func (*TokensIter).tail
